@@ -1259,9 +1259,10 @@ def _lock_nodes : Stmt :=
         check .assert,
         Stmt.ite .any
           (block [
-            -- for each node of ds.items()
+            Stmt.opaque "expression GeneratorExp",
+            check .assert,
+            -- for each node of self._involved_nodes(target)
             block [
-              check .assert,
               release ALL
             ],
             cont
@@ -1318,9 +1319,10 @@ def remote_cnot_onto : Stmt :=
               check .assert,
               Stmt.ite .any
                 (block [
-                  -- for each node of ds.items()
+                  Stmt.opaque "expression GeneratorExp",
+                  check .assert,
+                  -- for each node of self._involved_nodes(target)
                   block [
-                    check .assert,
                     release ALL
                   ],
                   cont
@@ -1480,9 +1482,10 @@ def remote_cphase_onto : Stmt :=
               check .assert,
               Stmt.ite .any
                 (block [
-                  -- for each node of ds.items()
+                  Stmt.opaque "expression GeneratorExp",
+                  check .assert,
+                  -- for each node of self._involved_nodes(target)
                   block [
-                    check .assert,
                     release ALL
                   ],
                   cont
@@ -1640,9 +1643,10 @@ def _two_qubit_gate : Stmt :=
             check .assert,
             Stmt.ite .any
               (block [
-                -- for each node of ds.items()
+                Stmt.opaque "expression GeneratorExp",
+                check .assert,
+                -- for each node of self._involved_nodes(target)
                 block [
-                  check .assert,
                   release ALL
                 ],
                 cont
